@@ -1,0 +1,128 @@
+//go:build verif
+
+// Contracts for the remaining pack helpers: every packer only moves the offset forward (so a packed
+// message is never shorter than its 12-octet header and RDLENGTH is never negative).  Comment-only file.
+
+package dns
+
+//@ func packDataA [C01 C08]
+//@   requires 0 <= off
+//@   ensures mono: ret1 == nil ==> off <= ret0 && ret0 <= off + 4
+//@   ensures rng: ret1 == nil && off <= len(msg) ==> ret0 <= len(msg)
+//@   writes msg
+//@ func packDataAAAA [C01 C08]
+//@   requires 0 <= off
+//@   ensures mono: ret1 == nil ==> off <= ret0 && ret0 <= off + 16
+//@   ensures rng: ret1 == nil && off <= len(msg) ==> ret0 <= len(msg)
+//@   writes msg
+//@ func packTxt [C01 C08]
+//@   requires 0 <= offset
+//@   ensures mono: ret1 == nil ==> offset <= ret0
+//@   ensures rng: ret1 == nil && offset <= len(msg) ==> ret0 <= len(msg)
+//@   loop 1 invariant old(offset) <= offset && (old(offset) <= len(msg) ==> offset <= len(msg))
+//@   writes msg
+//@ func packStringTxt [C01 C08]
+//@   requires 0 <= off
+//@   ensures mono: ret1 == nil ==> off <= ret0
+//@   ensures rng: ret1 == nil && off <= len(msg) ==> ret0 <= len(msg)
+//@   writes msg
+//@ func packOctetString [C01 C08]
+//@   requires 0 <= offset
+//@   ensures mono: ret1 == nil ==> offset <= ret0 && ret0 <= len(msg)
+//@   ensures rng: ret1 == nil && offset <= len(msg) ==> ret0 <= len(msg)
+//@   loop 1 invariant old(offset) <= offset && offset <= len(msg) && 0 <= i
+//@   writes msg
+//@ func packStringOctet [C01 C08]
+//@   requires 0 <= off
+//@   ensures mono: ret1 == nil ==> off <= ret0
+//@   ensures rng: ret1 == nil && off <= len(msg) ==> ret0 <= len(msg)
+//@   writes msg
+//@ func packStringBase32 [C01 C08]
+//@   requires 0 <= off
+//@   ensures mono: ret1 == nil ==> off <= ret0 && ret0 <= len(msg)
+//@   ensures rng: ret1 == nil && off <= len(msg) ==> ret0 <= len(msg)
+//@   writes msg
+//@ func packDataDomainNames [C01 C08]
+//@   requires 0 <= off
+//@   ensures mono: ret1 == nil ==> off <= ret0
+//@   ensures rng: ret1 == nil && off <= len(msg) ==> ret0 <= len(msg)
+//@   loop 1 invariant old(off) <= off && (old(off) <= len(msg) ==> off <= len(msg))
+//@   writes msg
+//@   modifies MS.mapLstringJint MS.mapLstringJuint16
+//@ func packDataNsec [C01 C08]
+//@   requires 0 <= off
+//@   ensures mono: ret1 == nil ==> off <= ret0
+//@   ensures rng: ret1 == nil && off <= len(msg) ==> ret0 <= len(msg)
+//@   loop * invariant old(off) <= off && off <= len(msg)
+//@   loop 1 invariant rangeindex >= 0 ==> lastlength >= 1 && off + 2 + lastlength <= len(msg)
+//@   writes msg
+//@ func packDataOpt [C01 C08]
+//@   opt no-safety
+//@   requires 0 <= off
+//@   ensures mono: ret1 == nil ==> off <= ret0
+//@   ensures rng: ret1 == nil && off <= len(msg) ==> ret0 <= len(msg)
+//@   loop 1 invariant old(off) <= off && (old(off) <= len(msg) ==> off <= len(msg))
+//@   writes msg
+//@ func packDataSVCB [C01 C08]
+//@   opt no-safety
+//@   requires 0 <= off
+//@   ensures mono: ret1 == nil ==> off <= ret0
+//@   ensures rng: ret1 == nil && off <= len(msg) ==> ret0 <= len(msg)
+//@   loop 1 invariant old(off) <= off && (old(off) <= len(msg) ==> off <= len(msg))
+//@   writes msg
+//@ func packDataApl [C01 C08]
+//@   requires 0 <= off
+//@   ensures mono: ret1 == nil ==> off <= ret0
+//@   ensures rng: ret1 == nil && off <= len(msg) ==> ret0 <= len(msg)
+//@   loop 1 invariant old(off) <= off && (old(off) <= len(msg) ==> off <= len(msg))
+//@   writes msg
+//@ func packDataAplPrefix [C01 C08]
+//@   opt no-safety
+//@   requires 0 <= off
+//@   ensures mono: ret1 == nil ==> off <= ret0
+//@   ensures rng: ret1 == nil && off <= len(msg) ==> ret0 <= len(msg)
+//@   writes msg
+//@ func packIPSECGateway [C01 C08]
+//@   requires 0 <= off
+//@   ensures mono: ret1 == nil ==> off <= ret0
+//@   ensures rng: ret1 == nil && off <= len(msg) ==> ret0 <= len(msg)
+//@   writes msg
+//@   modifies MS.mapLstringJint MS.mapLstringJuint16
+
+// message framing: header, question, resource record
+//@ func (*Header).pack [C01 C08]
+//@   requires 0 <= off
+//@   ensures ok: ret1 == nil ==> ret0 == off + 12 && ret0 <= len(msg)
+//@   writes msg
+//@ func (*Question).pack [C01 C08]
+//@   requires 0 <= off
+//@   ensures mono: ret1 == nil ==> off <= ret0
+//@   ensures rng: ret1 == nil && off <= len(msg) ==> ret0 <= len(msg)
+//@   writes msg
+//@   modifies MS.mapLstringJint MS.mapLstringJuint16
+//@ func (RR_Header).packHeader [C01 C08]
+//@   requires 0 <= off
+//@   ensures mono: ret1 == nil ==> off <= ret0 && (off != len(msg) ==> off + 10 <= ret0 && ret0 <= len(msg))
+//@   ensures root: ret1 == nil && off != len(msg) && isdot(hdr.Name) ==> ret0 == off + 11
+//@   ensures rng: ret1 == nil && off <= len(msg) ==> ret0 <= len(msg)
+//@   writes msg
+//@   modifies MS.mapLstringJint MS.mapLstringJuint16
+//@ func packRR [C01 C08]
+//@   requires 0 <= off
+//@   ensures mono: err == nil ==> off <= headerEnd && headerEnd <= off1 && off1 <= len(msg)
+//@   ensures root: err == nil && off != len(msg) && isdot(hdr(rr).Name) ==> headerEnd == off + 11
+//@ func PackRR [C01 C08]
+//@   requires 0 <= off
+//@   ensures mono: err == nil ==> off <= off1 && off1 <= len(msg)
+//@   ensures root: err == nil && off != len(msg) && isdot(hdr(rr).Name) ==> off + 11 <= off1
+
+// a packed message always contains its 12-octet header
+//@ func (*Msg).packBufferWithCompressionMap [C01 C08 C18 C11]
+//@   ensures hdr12: ret1 == nil ==> len(ret0) >= 12
+//@   ensures within: ret1 == nil && ref(ret0) == ref(buf) ==> len(ret0) <= len(buf)
+//@   loop * invariant 12 <= off && off <= len(msg)
+//@ func (*Msg).PackBuffer [C01 C08 C18 C11]
+//@   ensures hdr12: ret1 == nil ==> len(ret0) >= 12
+//@   ensures within: ret1 == nil && ref(ret0) == ref(buf) ==> len(ret0) <= len(buf)
+//@ func (*Msg).Pack [C01 C08 C11]
+//@   ensures hdr12: ret1 == nil ==> len(ret0) >= 12
